@@ -321,8 +321,8 @@ func (k *keyTaint) classify(v ssa.Value, depth int) textClass {
 		case name == "lib/value.(String).Raw":
 			k.why = append(k.why, "free text from (value.String).Raw()")
 			return txFree
-		case name == "lib/value.Int64ToStr" || name == "lib/value.Float64ToStr" || name == "lib/value.(Integer).String" || name == "lib/value.(Float).String" || strings.HasPrefix(name, "strconv.Format") || name == "strconv.Itoa":
-			return txSafe // digits, sign, '.', 'e', "NaN", "Inf": never the separator
+		case name == "lib/value.Int64ToStr" || name == "lib/value.Float64ToStr" || name == "lib/value.(Integer).String" || name == "lib/value.(Float).String" || strings.HasPrefix(name, "strconv.Format") || name == "strconv.Itoa" || name == "(*math/big.Int).String":
+			return txSafe // digits, sign, '.', 'e', "NaN", "Inf" ("<nil>" for a nil *big.Int): never the separator
 		case name == "(*bytes.Buffer).Bytes":
 			return txSafe // an already serialised key
 		case name == "(*strings.Replacer).Replace":
